@@ -2,8 +2,11 @@
 pub mod selftest;
 pub mod c01;
 pub mod c03;
+pub mod c04;
 pub mod c05;
+pub mod c06;
 pub mod c07;
+pub mod c09;
 
 use serde_json::Value;
 
@@ -12,7 +15,10 @@ pub fn run(id: &str, tier: &str) -> i32 {
         "C01" => c01::run(tier, false),
         "C10" => c01::run(tier, true),
         "C03" => c03::run(tier),
+        "C04" => c04::run(tier),
         "C05" => c05::run(tier),
+        "C06" => c06::run(tier),
+        "C09" => c09::run(tier),
         "C07" => c07::run(tier, "C07"),
         "C08" => c07::run(tier, "C08"),
         _ => {
@@ -55,8 +61,11 @@ fn replay_one(id: &str, v: &Value) -> Option<String> {
     match id {
         "C01" | "C10" => c01::replay(v, id == "C10"),
         "C03" => c03::replay(v),
+        "C04" => c04::replay(v),
         "C05" => c05::replay(v),
+        "C06" => c06::replay(v),
         "C07" | "C08" => c07::replay(v, id),
+        "C09" => c09::replay(v),
         _ => Some(format!("no replay driver for {}", id)),
     }
 }
